@@ -775,13 +775,8 @@ Proof.
       apply bindM_inv in Hr. destruct Hr as (o1 & s1 & o2 & E1 & E2 & _). eapply stmts_nn; eauto.
 Qed.
 
-(* closed, typed literal expressions evaluate to a value of their type *)
-Lemma interp_lit e segs : forallb is_seglit segs = true -> exists b, interp_segs e segs = Ok b.
-Proof.
-  induction segs as [|sg r IH]; cbn [forallb interp_segs]; [eauto|].
-  destruct sg; cbn [is_seglit andb]; [|discriminate]. intros H. destruct (IH H) as [b E]. rewrite E. eauto.
-Qed.
-
+(* typed trap-free expressions (literals, template strings, operator trees over them whose types
+   fit) evaluate to a value of their type *)
 Lemma interp_res e segs : (exists b, interp_segs e segs = Ok b) \/ interp_segs e segs = Panic PSegVar.
 Proof.
   induction segs as [|sg r IH]; cbn [interp_segs]; [left; eauto|]. destruct sg as [b|vn vl].
@@ -804,95 +799,115 @@ Proof.
     cbn; eexists; split; reflexivity.
 Qed.
 
-Definition lit_res (P : plan) (eps : f64) (n : nat) (e : expr) (s : st) (t : lty) : Prop :=
-  eval P eps n e s = ([], Fuel) \/
-  exists v, eval P eps n e s = ([], Ok (v, s)) /\ has_ty v t = true.
+(* prints nothing; fails in a tolerated way (fuel, a variable that is not there) or returns a
+   value (of type t) in the unchanged state *)
+Definition ptres (t : option lty) (m : M (value * st)) (s : st) : Prop :=
+  exists r, m = ([], r) /\
+    (tolr r \/ exists v, r = Ok (v, s) /\ match t with Some ty => has_ty v ty = true | None => True end).
 
-Lemma evals_lit (ev : expr -> st -> M (value * st)) :
-  (forall e s t, lit_ty e = Some t ->
-                 ev e s = ([], Fuel) \/ exists v, ev e s = ([], Ok (v, s)) /\ has_ty v t = true) ->
-  forall es s,
-    forallb (fun x => match lit_ty x with Some _ => true | None => false end) es = true ->
-    evals_with ev es s = ([], Fuel) \/ exists vs, evals_with ev es s = ([], Ok (vs, s)).
+Lemma bind_tol {A B} (m : M A) (f : A -> M B) r :
+  m = ([], r) -> tolr r -> exists r', bindM m f = ([], r') /\ tolr r'.
 Proof.
-  intros Hev. induction es as [|a r IH]; intros s H; cbn [evals_with forallb] in *.
-  - right. eexists. reflexivity.
-  - apply andb_prop in H. destruct H as [Ha Hr]. destruct (lit_ty a) as [t|] eqn:Et; [|discriminate].
-    destruct (Hev a s t Et) as [F|[v [E _]]]; rewrite ?F, ?E; [left; reflexivity|].
-    rewrite bindM_ret_nil. destruct (IH s Hr) as [F|[vs E']]; rewrite ?F, ?E'; [left; reflexivity|].
-    rewrite bindM_ret_nil. right. eexists. reflexivity.
+  intros -> T. destruct r as [a|e|p| |]; cbn in T; try contradiction; cbn [bindM];
+    eexists; (split; [reflexivity|exact T]).
 Qed.
 
-Lemma lit_ty_eval P eps n : forall e s t, lit_ty e = Some t -> lit_res P eps n e s t.
+Lemma pt_bind_tol {A} t (m : M A) (f : A -> M (value * st)) s r :
+  m = ([], r) -> tolr r -> ptres t (bindM m f) s.
 Proof.
-  unfold lit_res. induction n as [|n IH]; intros e s t H; [left; reflexivity|].
-  rewrite eval_S. destruct e; cbn [lit_ty] in H; try discriminate.
-  - inversion H; subst. right. eexists. split; reflexivity.
-  - inversion H; subst. right. eexists. split; reflexivity.
-  - (* EInterp *)
-    destruct (forallb is_seglit segs) eqn:Es; [|discriminate]. inversion H; subst.
-    destruct (interp_lit (env s) segs Es) as [b E]. cbn [eval_body]. rewrite E.
-    unfold lift. rewrite bindM_ret_nil. right. eexists. split; reflexivity.
-  - inversion H; subst. right. eexists. split; reflexivity.
-  - inversion H; subst. right. eexists. split; reflexivity.
-  - (* EBin *)
-    destruct (lit_ty e1) as [ta|] eqn:Ea; [|discriminate].
-    destruct (lit_ty e2) as [tb|] eqn:Eb; [|discriminate].
-    pose proof (binop_typed eps op) as Hop.
-    destruct (IH e1 s ta Ea) as [F|[l [El Hl]]].
-    { destruct op; cbn [eval_body]; rewrite F; left; reflexivity. }
-    destruct (IH e2 s tb Eb) as [F|[r [Er Hr]]].
-    { destruct op; cbn [eval_body]; rewrite El, bindM_ret_nil; try (rewrite F; left; reflexivity);
-        destruct ta; cbn in H; try discriminate; destruct l; try discriminate Hl;
-        try (destruct b); try (rewrite F; left; reflexivity); right; eexists; split; try reflexivity;
-        destruct tb; cbn in H; try discriminate; inversion H; reflexivity. }
-    specialize (Hop l r ta tb t H Hl Hr).
-    destruct op; cbn [eval_body]; rewrite El, bindM_ret_nil;
-      try (rewrite Er, bindM_ret_nil; destruct Hop as [v [Ev Hv]]; rewrite Ev; unfold lift;
-           rewrite bindM_ret_nil; right; eexists; split; [reflexivity|exact Hv]).
-    + (* And *)
-      destruct ta, tb; cbn in H; try discriminate; inversion H; subst;
-        destruct l; try discriminate Hl; try destruct b;
-        try (right; eexists; split; reflexivity);
-        rewrite Er, bindM_ret_nil; destruct r; try discriminate Hr; right; eexists; split; reflexivity.
-    + (* Or *)
-      destruct ta, tb; cbn in H; try discriminate; inversion H; subst;
-        destruct l; try discriminate Hl; try destruct b;
-        try (right; eexists; split; reflexivity);
-        rewrite Er, bindM_ret_nil; destruct r; try discriminate Hr; right; eexists; split; reflexivity.
-  - (* EUn *)
-    destruct op.
-    + destruct (lit_ty e) as [ta|] eqn:Ea; [|discriminate].
-      destruct (boolish ta) eqn:Eb; [|discriminate]. inversion H; subst.
-      destruct (IH e s ta Ea) as [F|[v [Ev Hv]]]; cbn [eval_body]; rewrite ?F, ?Ev; [left; reflexivity|].
-      rewrite bindM_ret_nil. destruct ta; try discriminate Eb; destruct v; try discriminate Hv;
-        right; eexists; split; reflexivity.
-    + destruct (lit_ty e) as [ta|] eqn:Ea; [|discriminate]. destruct ta; try discriminate. inversion H; subst.
-      destruct (IH e s TNum Ea) as [F|[v [Ev Hv]]]; cbn [eval_body]; rewrite ?F, ?Ev; [left; reflexivity|].
-      rewrite bindM_ret_nil. destruct v; try discriminate Hv. right; eexists; split; reflexivity.
-  - (* EArr *)
-    match type of H with (if ?b then _ else _) = _ => destruct b eqn:Es end; [|discriminate].
-    inversion H; subst. cbn [eval_body].
-    destruct (evals_lit (eval P eps n) IH es s Es) as [F|[vs E]]; rewrite ?F, ?E; [left; reflexivity|].
-    rewrite bindM_ret_nil. right. eexists. split; reflexivity.
+  intros E T. destruct (bind_tol m f r E T) as [r' [E' T']]. exists r'. split; [exact E'|left; exact T'].
 Qed.
 
-Lemma evals_pt (ev : expr -> st -> M (value * st)) :
-  (forall e s, pure_total e = true ->
+Lemma evals_gen (ok : expr -> bool) (ev : expr -> st -> M (value * st)) :
+  (forall e s, ok e = true ->
                exists r, ev e s = ([], r) /\ (tolr r \/ exists v, r = Ok (v, s))) ->
-  forall es s, forallb pure_total es = true ->
+  forall es s, forallb ok es = true ->
     exists r, evals_with ev es s = ([], r) /\ (tolr r \/ exists vs, r = Ok (vs, s)).
 Proof.
   intros Hev. induction es as [|a r IH]; intros s H; cbn [evals_with forallb] in *.
   - eexists. split; [reflexivity|]. right. eexists. reflexivity.
   - apply andb_prop in H. destruct H as [Ha Hr].
-    destruct (Hev a s Ha) as [ra [E [T|[v Ev]]]]; rewrite E.
-    + exists (match ra with Ok _ => Fuel | Err e => Err e | Panic p => Panic p | Fuel => Fuel | Unsupp => Unsupp end).
-      destruct ra; cbn in T; try contradiction; cbn; split; auto.
-    + subst ra. rewrite bindM_ret_nil. destruct (IH s Hr) as [rr [E' [T|[vs Evs]]]]; rewrite E'.
-      * exists (match rr with Ok _ => Fuel | Err e => Err e | Panic p => Panic p | Fuel => Fuel | Unsupp => Unsupp end).
-        destruct rr; cbn in T; try contradiction; cbn; split; auto.
-      * subst rr. rewrite bindM_ret_nil. eexists. split; [reflexivity|]. right. eexists. reflexivity.
+    destruct (Hev a s Ha) as [ra [E [T|[v Ev]]]].
+    + destruct (bind_tol _ (fun '(v, s1) => bindM (evals_with ev r s1) (fun '(vs, s2) => OkM (v :: vs, s2))) _ E T)
+        as [r' [E' T']]. exists r'. split; [exact E'|left; exact T'].
+    + subst ra. rewrite E, bindM_ret_nil. destruct (IH s Hr) as [rr [E' [T|[vs Evs]]]].
+      * destruct (bind_tol _ (fun '(vs, s2) => OkM (v :: vs, s2)) _ E' T) as [r' [E'' T']].
+        exists r'. split; [exact E''|left; exact T'].
+      * subst rr. rewrite E', bindM_ret_nil. eexists. split; [reflexivity|]. right. eexists. reflexivity.
+Qed.
+
+Ltac pt_ok := eexists; split; [reflexivity|right; eexists; split; reflexivity].
+
+Lemma lit_ty_eval P eps n : forall e s t, lit_ty e = Some t -> ptres (Some t) (eval P eps n e s) s.
+Proof.
+  induction n as [|n IH]; intros e s t H; [exists Fuel; split; [reflexivity|left; exact I]|].
+  rewrite eval_S. destruct e; cbn [lit_ty] in H; try discriminate.
+  - inversion H; subst. cbn [eval_body]. pt_ok.
+  - inversion H; subst. cbn [eval_body]. pt_ok.
+  - (* EInterp: any template string *)
+    inversion H; subst. cbn [eval_body].
+    destruct (interp_res (env s) segs) as [[b E]|E]; rewrite E; unfold lift.
+    + rewrite bindM_ret_nil. pt_ok.
+    + eexists. split; [reflexivity|left; exact I].
+  - inversion H; subst. cbn [eval_body]. pt_ok.
+  - inversion H; subst. cbn [eval_body]. pt_ok.
+  - (* EBin *)
+    destruct (lit_ty e1) as [ta|] eqn:Ea; [|discriminate].
+    destruct (lit_ty e2) as [tb|] eqn:Eb; [|discriminate].
+    pose proof (binop_typed eps op) as Hop.
+    destruct (IH e1 s ta Ea) as [r1 [E1 [T1|[l [El Hl]]]]].
+    { destruct op; cbn [eval_body]; eapply pt_bind_tol; eauto. }
+    subst r1.
+    destruct (IH e2 s tb Eb) as [r2 [E2 [T2|[rv [Er Hr]]]]].
+    { destruct op; cbn [eval_body]; rewrite E1, bindM_ret_nil;
+        try (eapply pt_bind_tol; eauto; fail);
+        destruct ta; cbn in H; try discriminate; destruct l; try discriminate Hl;
+        try (destruct b); try (eapply pt_bind_tol; eauto; fail);
+        (eexists; split; [reflexivity|right; eexists; split; [reflexivity|]];
+         destruct tb; cbn in H; try discriminate; inversion H; reflexivity). }
+    subst r2. specialize (Hop l rv ta tb t H Hl Hr).
+    destruct op; cbn [eval_body]; rewrite E1, bindM_ret_nil;
+      try (rewrite E2, bindM_ret_nil; destruct Hop as [v [Ev Hv]]; rewrite Ev; unfold lift;
+           rewrite bindM_ret_nil; eexists; split; [reflexivity|right; eexists; split; [reflexivity|exact Hv]]).
+    + (* And *)
+      destruct ta, tb; cbn in H; try discriminate; inversion H; subst;
+        destruct l; try discriminate Hl; try destruct b;
+        try (pt_ok; fail);
+        rewrite E2, bindM_ret_nil; destruct rv; try discriminate Hr; pt_ok.
+    + (* Or *)
+      destruct ta, tb; cbn in H; try discriminate; inversion H; subst;
+        destruct l; try discriminate Hl; try destruct b;
+        try (pt_ok; fail);
+        rewrite E2, bindM_ret_nil; destruct rv; try discriminate Hr; pt_ok.
+  - (* EUn *)
+    destruct op.
+    + destruct (lit_ty e) as [ta|] eqn:Ea; [|discriminate].
+      destruct (boolish ta) eqn:Eb; [|discriminate]. inversion H; subst.
+      destruct (IH e s ta Ea) as [r1 [E1 [T1|[v [Ev Hv]]]]]; cbn [eval_body]; [eapply pt_bind_tol; eauto|].
+      subst r1. rewrite E1, bindM_ret_nil. destruct ta; try discriminate Eb; destruct v; try discriminate Hv; pt_ok.
+    + destruct (lit_ty e) as [ta|] eqn:Ea; [|discriminate]. destruct ta; try discriminate. inversion H; subst.
+      destruct (IH e s TNum Ea) as [r1 [E1 [T1|[v [Ev Hv]]]]]; cbn [eval_body]; [eapply pt_bind_tol; eauto|].
+      subst r1. rewrite E1, bindM_ret_nil. destruct v; try discriminate Hv. pt_ok.
+  - (* EArr *)
+    match type of H with (if ?b then _ else _) = _ => destruct b eqn:Es end; [|discriminate].
+    inversion H; subst. cbn [eval_body].
+    assert (Hev : forall e0 s0, (match lit_ty e0 with Some _ => true | None => false end) = true ->
+                    exists r, eval P eps n e0 s0 = ([], r) /\ (tolr r \/ exists v, r = Ok (v, s0))).
+    { intros e0 s0 H0. destruct (lit_ty e0) as [t0|] eqn:E0; [|discriminate].
+      destruct (IH e0 s0 t0 E0) as [r [E [T|[v [Ev _]]]]]; exists r; (split; [exact E|]); [left; exact T|right; eauto]. }
+    destruct (evals_gen _ (eval P eps n) Hev es s Es) as [r [E [T|[vs Evs]]]].
+    + eapply pt_bind_tol; eauto.
+    + subst r. rewrite E, bindM_ret_nil. pt_ok.
+Qed.
+
+Lemma builtin_pt (ev : expr -> st -> M (value * st)) g a s :
+  g = GTypeOf \/ g = GToString ->
+  (exists r, ev a s = ([], r) /\ (tolr r \/ exists v, r = Ok (v, s))) ->
+  exists r, builtin_call ev g [a] s = ([], r) /\ (tolr r \/ exists v, r = Ok (v, s)).
+Proof.
+  intros Hg [ra [Ea [T|[v Ev]]]]; unfold builtin_call; cbn [evals_with]; rewrite Ea.
+  - destruct ra as [x|x|p| |]; cbn in T; try contradiction; cbn; eexists; (split; [reflexivity|left; exact T]).
+  - subst ra. cbn. destruct Hg as [Hg|Hg]; subst g; eexists; (split; [reflexivity|right; eexists; reflexivity]).
 Qed.
 
 (* C03 pure_notrap_total: a total pure expression evaluates, in any state, without output
@@ -905,26 +920,28 @@ Proof.
   - exists Fuel. split; [reflexivity|left; exact I].
   - assert (Hlit : forall t, lit_ty e = Some t ->
                exists r, eval P eps (S n) e s = ([], r) /\ (tolr r \/ exists v, r = Ok (v, s))).
-    { intros t Et. destruct (lit_ty_eval P eps (S n) e s t Et) as [F|[v [Ev _]]]; rewrite ?F, ?Ev;
-        eexists; (split; [reflexivity|]); [left; exact I|right; eexists; reflexivity]. }
+    { intros t Et. destruct (lit_ty_eval P eps (S n) e s t Et) as [r [E [T|[v [Ev _]]]]];
+        exists r; (split; [exact E|]); [left; exact T|right; eauto]. }
     destruct e; cbn [pure_total] in H;
       try (match type of H with (match ?x with _ => _ end) = true => destruct x eqn:El end;
            [eapply Hlit; reflexivity|discriminate]).
-    + (* EInterp *)
-      rewrite eval_S. cbn [eval_body].
-      destruct (interp_res (env s) segs) as [[b E]|E]; rewrite E; unfold lift.
-      * rewrite bindM_ret_nil. eexists. split; [reflexivity|]. right. eexists. reflexivity.
-      * eexists. split; [reflexivity|]. left. exact I.
+    + (* EInterp *) eapply Hlit. reflexivity.
     + (* EVar *)
       rewrite eval_S. cbn [eval_body]. destruct (lookup_env l n0 (env s)).
       * eexists. split; [reflexivity|]. right. eexists. reflexivity.
       * eexists. split; [reflexivity|]. left. exact I.
     + (* EArr *)
       rewrite eval_S. cbn [eval_body].
-      destruct (evals_pt (eval P eps n) IH es s H) as [r [E [T|[vs Evs]]]]; rewrite E.
-      * exists (match r with Ok _ => Fuel | Err e => Err e | Panic p => Panic p | Fuel => Fuel | Unsupp => Unsupp end).
-        destruct r; cbn in T; try contradiction; cbn; split; auto.
-      * subst r. rewrite bindM_ret_nil. eexists. split; [reflexivity|]. right. eexists. reflexivity.
+      destruct (evals_gen pure_total (eval P eps n) IH es s H) as [r [E [T|[vs Evs]]]].
+      * destruct (bind_tol _ (fun '(vs, s1) => OkM (VArr vs, s1)) _ E T) as [r' [E' T']].
+        exists r'. split; [exact E'|left; exact T'].
+      * subst r. rewrite E, bindM_ret_nil. eexists. split; [reflexivity|]. right. eexists. reflexivity.
+    + (* ECall: typeof / to_string of a total pure argument *)
+      destruct e; try (cbn [lit_ty] in H; discriminate).
+      destruct args as [|a [|a2 r]]; try (cbn [lit_ty] in H; discriminate).
+      destruct (global_builtin n0) as [g|] eqn:Eg; [|discriminate].
+      rewrite eval_S. cbn [eval_body]. rewrite Eg.
+      destruct g; try discriminate; (apply builtin_pt; [auto|apply IH; exact H]).
 Qed.
 
 (* a statement c_p1 drops from a live position does nothing the projection can see *)
@@ -1301,14 +1318,25 @@ Proof.
   intros H E T. exact (prune_residual_sound_lemma (ncfg ss dead) prog eps fuel o e H E (fun _ => T)).
 Qed.
 
+Theorem plan_ok_with_sound_lemma dead prog ss fs eps fuel o e :
+  v_checked (plan_ok_with dead prog ss fs) = true ->
+  run_impl (Some (v_residual (plan_ok_with dead prog ss fs))) eps fuel prog = (o, e) ->
+  tol_ending e = false ->
+  run_impl (Some (ss, fs)) eps fuel prog = (o, e).
+Proof.
+  unfold plan_ok_with. cbv zeta. cbn [v_checked v_residual]. intros H E T.
+  exact (prune_residual_sound_lemma _ prog eps fuel o e H E (fun _ => T)).
+Qed.
+
 Theorem plan_ok_sound_lemma prog ss fs eps fuel o e :
   v_checked (plan_ok prog ss fs) = true ->
   run_impl (Some (v_residual (plan_ok prog ss fs))) eps fuel prog = (o, e) ->
   tol_ending e = false ->
   run_impl (Some (ss, fs)) eps fuel prog = (o, e).
 Proof.
-  unfold plan_ok. cbv zeta. cbn [v_checked v_residual]. intros H E T.
-  exact (prune_residual_sound_lemma _ prog eps fuel o e H E (fun _ => T)).
+  unfold plan_ok. cbv zeta.
+  destruct (v_checked (plan_ok_with (nodup Z.eq_dec (dead_ids prog ss ++ dead_ids_live prog ss)) prog ss fs)) eqn:E1; cbv iota;
+    intros H E T; eapply plan_ok_with_sound_lemma; eauto.
 Qed.
 
 Lemma empty_plan_is_none prog eps fuel :
